@@ -2,13 +2,18 @@ package main
 
 // C15 — multi-site edit commands act once at every located site, in input coordinates.
 
-import "github.com/go-gts/gts"
+import (
+	"os"
 
-//verif:harness prop=C15 quick=2 thorough=4 merge=concrete timeout=1500
+	"github.com/go-gts/gts"
+	"github.com/go-gts/gts/seqio"
+)
+
+//verif:harness prop=C15 quick=2 thorough=2 merge=concrete timeout=1500
 //verif:bounds gts delete with locator `gene`: linear record of 5 (quick) / 6 (thorough) symbolic residues with 2 (quick) / 3 (thorough) gene features (ranges on either strand, symbolic coordinates: overlapping, nested, coinciding, unsorted); options: plain / -e (erase)
 //verif:assume scanner = queue of harness-built records, writer = capturing sink, cmd.IsTerminal = false, --no-cache (DESIGN §2.5); natively the real reader/writer/command run on real files
 func VH_C15_delete() {
-	sh := vShard(2 + 2*vTier())
+	sh := vShard(2)
 	L, nf := 5+vTier(), 2+vTier()
 	erase := sh%2 == 1
 	gb, data, genes := vGenRecord(L, nf, false)
@@ -59,10 +64,10 @@ func vHead(g gts.Feature) int {
 	return vIte(a.rev, a.e, a.s) // complement regions are (tail, head) reversed: Head() is the upper coordinate
 }
 
-//verif:harness prop=C15 quick=2 thorough=4 merge=concrete timeout=1500
+//verif:harness prop=C15 quick=2 thorough=2 merge=concrete timeout=1500
 //verif:bounds gts insert with locator `gene` and a literal 2-residue guest (@..): linear record of 4 (quick) / 5 (thorough) symbolic residues, 2 (quick) / 3 (thorough) genes on either strand with symbolic coordinates; options plain / -e (embed)
 func VH_C15_insert() {
-	sh := vShard(2 + 2*vTier())
+	sh := vShard(2)
 	L, nf := 4+vTier(), 2+vTier()
 	embed := sh%2 == 1
 	gb, data, genes := vGenRecord(L, nf, false)
@@ -264,4 +269,62 @@ func VH_C15_extract() {
 	}
 	vAssert("no-extra-records", k == len(out))
 	vObserve("records", len(out))
+}
+
+//verif:harness prop=C15 quick=2 thorough=2 merge=concrete timeout=1500
+//verif:bounds gts infix with locator `gene`: the guest (residues xy, on stdin) is placed into a host file: linear host of 4 (quick) / 5 (thorough) symbolic residues with 2 / 3 genes on either strand, symbolic coordinates; options plain / -e (embed)
+func VH_C15_infix() {
+	sh := vShard(2)
+	L, nf := 4+vTier(), 2+vTier()
+	embed := sh%2 == 1
+	host, data, genes := vGenRecord(L, nf, false)
+	guest, _ := vPlainRecord("gst", 0)
+	gdata := []byte("xy") // concrete, as the literal guest of VH_C15_insert (symbolic guest residues defeat the state merging here)
+	guest.Origin = seqio.NewOrigin(gdata)
+	path := "/h/host.gb"
+	if vIsModel() {
+		vFSWrite(path, []byte("host")) // the model scanner takes the records from the queue; the bytes only feed the digest
+	} else {
+		path = vTempDir() + "/host.gb"
+		f, err := os.Create(path)
+		if err != nil {
+			panic(err)
+		}
+		if _, err := seqio.NewWriter(f, seqio.GenBankFile).WriteSeq(host); err != nil {
+			panic(err)
+		}
+		f.Close()
+	}
+	args := []string{"--no-cache", "gene", path}
+	if embed {
+		args = []string{"--no-cache", "-e", "gene", path}
+	}
+	vSecondary = [][]gts.Sequence{{host}}
+	out, err := vRunCmd("infix", infixFunc, args, []gts.Sequence{guest})
+	vSecondary = nil
+	vAssert("command-ok", err == nil)
+	vAssert("one-record", len(out) == 1)
+	if err != nil || len(out) != 1 {
+		return
+	}
+	vCover("infixed")
+	got := out[0].Bytes()
+	const g = 2
+	vAssert("one-copy-per-site", len(got) == L+g*nf)
+	for x := 0; x < L; x++ {
+		cnt := 0
+		for _, gn := range genes {
+			cnt += vIte(vHead(gn) <= x, 1, 0)
+		}
+		vAssert("host-residue-placed", vSel(got, x+g*cnt) == int(data[x]))
+	}
+	for _, gn := range genes {
+		h := vHead(gn)
+		before := 0
+		for _, o := range genes {
+			before += vIte(vHead(o) < h, 1, 0)
+		}
+		vAssert("guest-at-site", vAnd(vSel(got, h+g*before) == int(gdata[0]), vSel(got, h+g*before+1) == int(gdata[1])))
+	}
+	vObserve("outlen", len(got))
 }
